@@ -1244,7 +1244,13 @@ func (p *Path) runBlocks(fr *frame) {
 			if p.steps > p.eng.cfg.MaxSteps {
 				p.abort("limit", "step limit")
 			}
-			if p.visit(fr, in) {
+			var j bool
+			if p.lenient > 0 {
+				j = p.visitLenient(fr, in)
+			} else {
+				j = p.visit(fr, in)
+			}
+			if j {
 				jumped = true
 				break
 			}
@@ -1253,6 +1259,36 @@ func (p *Path) runBlocks(fr *frame) {
 			p.abort("internal", "block fell through")
 		}
 	}
+}
+
+// visitLenient executes one instruction of a package initialiser; whatever the engine cannot evaluate becomes Poison
+// instead of stopping the whole initialiser (only values that are actually used later matter).
+func (p *Path) visitLenient(fr *frame, in ssa.Instruction) (jumped bool) {
+	defer func() {
+		if r := recover(); r != nil {
+			pa, ok := r.(pathAbort)
+			if !ok || (pa.kind != "lenient" && pa.kind != "unsupported") {
+				if _, isPanic := r.(progPanic); !isPanic {
+					panic(r)
+				}
+			}
+			if v, isVal := in.(ssa.Value); isVal {
+				fr.env[v] = Poison{"init"}
+			}
+			switch in.(type) {
+			case *ssa.If:
+				fr.prev, fr.block = fr.block, fr.block.Succs[1]
+				jumped = true
+			case *ssa.Jump:
+				fr.prev, fr.block = fr.block, fr.block.Succs[0]
+				jumped = true
+			case *ssa.Return, *ssa.Panic:
+				fr.block = nil
+				jumped = true
+			}
+		}
+	}()
+	return p.visit(fr, in)
 }
 
 func (p *Path) get(fr *frame, v ssa.Value) Value {
